@@ -27,7 +27,9 @@ RULE = (
     '(Wing-Gong search); every queued job starts exactly once; a raising job '
     'is followed by the next; at quiescence has_jobs() is False, current is '
     'None, queue and background table are empty; is_running(name) is True '
-    'for observations inside a background job\'s execution and False after '
+    'for observations inside a background job\'s execution (by clients, '
+    'and by the job itself, which must also find itself in '
+    'get_background()) and False after '
     'its thread has ended; no deadlock, no lost wake-up (step limit), no '
     'exception out of a public call. Non-trivial = >= 2 jobs and >= 1 '
     'preemption taken while the preempted thread was inside job_control.py. '
@@ -65,6 +67,15 @@ def run_scenario(scenario, preemptions, choices, step_limit=6000):
                         scheduler.yield_point()
                     elif step[0] == 'sleep':
                         scheduler.sleep(step[1])
+                    elif step[0] == 'self':
+                        # the job asks the controller about itself
+                        control = holder['control']
+                        name = 'j{}'.format(self.jid)
+                        scheduler.record(
+                            'self-report', self.jid,
+                            control.is_running(name),
+                            name in [a.name for a in
+                                     list(control.get_background())])
                     elif step[0] == 'raise':
                         raise RuntimeError('job {} fails'.format(self.jid))
             finally:
@@ -174,6 +185,14 @@ def analyse(scenario, scheduler, outcome, final):
                          'the order in which jobs started: {}'.format(
                              [e[4] for e in log if e[3] == 'start'
                               and e[4] in queued_ids])))
+    for event in log:
+        if event[3] == 'self-report' and event[4] in spawned_ids and not (
+                event[5] and event[6]):
+            problems.append(('background-job-not-reported-while-executing',
+                             'background job j{} asked about itself while '
+                             'executing: is_running -> {}, listed by '
+                             'get_background -> {}'.format(
+                                 event[4], event[5], event[6])))
     # is_running observations of background jobs
     position = {id(e): i for i, e in enumerate(log)}
     for event in log:
@@ -320,6 +339,10 @@ def scenarios(draw):
         if draw(st.booleans()):
             # long enough to be observed while it runs
             jobs[str(jid)] = [['yield'], ['sleep', 1.0]] + jobs[str(jid)]
+        if draw(st.booleans()):
+            position = draw(st.integers(0, len(jobs[str(jid)])))
+            if ['raise'] not in jobs[str(jid)][:position]:
+                jobs[str(jid)].insert(position, ['self'])
     return {'clients': clients, 'jobs': jobs}
 
 
@@ -341,7 +364,7 @@ FIXED = [
      'jobs': {'1': [], '2': [['raise']], '3': []}},
     {'clients': [[['add', 1], ['has_jobs']], [['spawn', 2],
                                              ['is_running', 2]]],
-     'jobs': {'1': [['yield']], '2': [['yield'], ['yield']]}},
+     'jobs': {'1': [['yield']], '2': [['self'], ['yield'], ['self']]}},
     {'clients': [[['add', 1], ['get_current']],
                  [['spawn', 2], ['pause', 0.25], ['is_running', 2],
                   ['pause', 2.0], ['is_running', 2]]],
